@@ -400,7 +400,9 @@ def _e_args(ctx, R):
                 probs = []
                 if want is not None and len(a) != want:
                     probs.append("passes %d argument(s), the hook takes %d" % (len(a), want))
-                if not a or norm(a[0]) != "self":
+                # (in a private module-level function the first parameter stands for the object the calling method is working on)
+                me = "self" if f.cls is not None or not f.params or not f.name.startswith("_") else f.params[0]
+                if not a or norm(a[0]) != me:
                     probs.append("first argument is `%s`, not the object being changed" % (norm(a[0]) if a else "-"))
                 if len(a) >= 2 and isinstance(a[1], ast.Name) and a[1].id == "self":
                     probs.append("second argument is self")
